@@ -268,11 +268,17 @@ def is_unknown(v):
     return isinstance(v, Unknown)
 
 
-def contains_unknown(v, _d=0):
+def contains_unknown(v, _d=0, _seen=None):
     if isinstance(v, Unknown):
         return v
     if _d > 40:
         return None
+    # terms are DAGs (joins share sub-terms): visit each node once
+    if _seen is None:
+        _seen = set()
+    if id(v) in _seen:
+        return None
+    _seen.add(id(v))
     subs = []
     if isinstance(v, Tup):
         subs = v.items
@@ -294,7 +300,7 @@ def contains_unknown(v, _d=0):
                 return Unknown(f.func.__name__)
         return None
     for s in subs:
-        u = contains_unknown(s, _d + 1)
+        u = contains_unknown(s, _d + 1, _seen)
         if u is not None:
             return u
     return None
@@ -2562,6 +2568,9 @@ def _fold_isinstance(model, v, t):
         return None
     if isinstance(v, GenV):
         return False        # a generator object is an instance of no repository class and no container type
+    if isinstance(v, Ite):
+        ra, rb = _fold_isinstance(model, v.a, t), _fold_isinstance(model, v.b, t)
+        return ra if ra is not None and ra == rb else None      # both alternatives agree
     if isinstance(v, App) and v.name.startswith('astropy.') and v.name.split('.')[-1][:1].isupper():
         made = v.name.split('.')[-1]
         sub = {'Angle': {'Angle', 'Quantity'}, 'Quantity': {'Quantity'}, 'SkyCoord': {'SkyCoord'}}.get(made)
@@ -2575,15 +2584,19 @@ def _fold_isinstance(model, v, t):
         # values whose Python type the term itself fixes
         ty = None
         if isinstance(v, App) and v.name in ('fstring', 'fmt', 'str.format', 'str') or (
-                isinstance(v, Const) and isinstance(v.v, str)):
+                isinstance(v, Const) and isinstance(v.v, str)) or (
+                isinstance(v, Obj) and v.cls == 'str' and v.ci is None):
             ty = {'str'}
         elif isinstance(v, Tup) and v.kind in ('list', 'tuple'):
             ty = {v.kind}
         elif isinstance(v, Const) and isinstance(v.v, bool):
             ty = {'bool', 'int'}
-        if ty is not None and all(c in ('str', 'list', 'tuple', 'dict', 'bool', 'int', 'float', 'set', 'bytes')
+        if ty is not None and any(c in ty for k, c in names):
+            return True                 # a Python str / list / tuple / bool is an instance of its own type, whatever else is listed
+        if ty is not None and all(c in ('str', 'list', 'tuple', 'dict', 'bool', 'int', 'float', 'set', 'bytes',
+                                        'bool_', 'ndarray', 'generic', 'integer', 'floating', 'number', 'Quantity')
                                   for k, c in names):
-            return any(c in ty for k, c in names)
+            return False                # ... and of none of the other builtin / numpy types
     if isinstance(v, sp.Symbol) and v in PLAIN_QUANTITY and all(k == 'ext' for k, c in names):
         return any(c == 'Quantity' for k, c in names)
     if isinstance(v, Obj) and getattr(v, 'typed', True) is False:
